@@ -243,6 +243,25 @@ def run_property(pid, tier="quick", seed=0, jobs=None, extra=None):
             results = pool.map(work, jobs_list, chunksize=1)
     else:
         results = [work(j) for j in jobs_list]
+    extra = dict(extra or {})
+    from .props import PROPS
+
+    bmod = PROPS[pid].get("bounded")
+    if bmod:
+        # bounded stand-ins: labelled bounded, reported separately, never counted as proved obligations
+        try:
+            reports = importlib.import_module(bmod).run(E, tier)
+        except Exception as ex:  # noqa
+            extra.setdefault("engine", []).append("bounded stand-in %s crashed: %s: %s" % (bmod, type(ex).__name__, ex))
+            reports = []
+        extra.setdefault("bounded", []).extend(reports)
+        for rep in reports:
+            if rep.get("n_failures"):
+                os.makedirs(os.path.join(VERIF, "replays", pid), exist_ok=True)
+                rp = os.path.join(VERIF, "replays", pid, "bounded_" + rep["function"].split(":")[-1].replace(".", "_") + ".json")
+                with open(rp, "w") as fh:
+                    json.dump({"property": pid, "obligation": "bounded:" + rep["function"], "bounded": rep, "replayed_on_real_code": True}, fh, indent=1, default=str)
+                extra.setdefault("violations", []).append("VIOLATION property=%s replay=%s" % (pid, rp))
     return finish(pid, tier, seed, E, results, t0, extra)
 
 
